@@ -3,6 +3,22 @@
 from .. import env
 from ..monitors import contracts
 from ..prop import Prop
+from ..ref import clock
+
+DST_ZONES = ["Asia/Jerusalem", "America/New_York", "Australia/Lord_Howe", "Europe/London", "Australia/Sydney",
+             "Pacific/Chatham", "America/St_Johns", "America/Los_Angeles"]
+
+
+def configs():
+    """(zone, virtual now) pairs: the real clock in UTC first, then both sides of every 2025-2026 transition day."""
+    out = [("UTC", None)]
+    for z in DST_ZONES:
+        for t in clock.transitions(z, 2025, 2027):
+            out.append((z, t - 2 * 3600))
+            out.append((z, t + 2 * 3600))
+    for z in ("Asia/Kathmandu", "Pacific/Kiritimati", "Pacific/Pago_Pago"):
+        out.append((z, 1_767_225_600 - 3600))  # around new year 2026 UTC
+    return out
 
 
 def hhmm(m: int) -> str:
@@ -37,9 +53,11 @@ class C14(Prop):
     id = "C14"
     level = "exploration"
     technique = "exhaustive enumeration of all 1440x1440 pairs through the real calc_duration under a runtime contract"
-    rule = ("all 1440 x 1440 (start, end) HH:MM pairs, each start minute one batch, disjoint over shards; every pair is "
-            "distinct by construction; non-trivial = all (each compared with (e-s) mod 1440 rendered H:MM:SS); per start "
-            "8 pairs are additionally observed through SwitcherSchedule.duration")
+    rule = ("all 1440 x 1440 (start, end) HH:MM pairs under the real clock in UTC, each start minute one batch, disjoint over shards; "
+            "in addition, under a virtual clock on both sides of every 2025-2026 UTC-offset transition of 8 DST zones (+3 fixed-offset zones) "
+            "every start with 36 ends (equal, +-1, +-60, +-120, random) in quick and all 1440 ends for 8 of those configurations in "
+            "thorough; every (configuration, pair) is distinct by construction; non-trivial = all (each compared with (e-s) mod 1440 "
+            "rendered H:MM:SS); per start 8 pairs are additionally observed through SwitcherSchedule.duration")
     level_text = ("Complete enumeration of the statement's input space (2,073,600 pairs) on every run, in both tiers; "
                   "each result of the real function is compared with integer arithmetic.")
     level_note = "trusts integer arithmetic in vf/props/c14.py; canonical zero-padded HH:MM inputs only"
@@ -54,27 +72,59 @@ class C14(Prop):
         from aioswitcher.schedule import parser, tools
 
         self.tools, self.parser = tools, parser
+        self.cfgs = configs()
 
     def cases(self, tier, seed, shard, nshards):
+        cfgs = configs()
         for s in range(shard, 1440, nshards):
-            yield {"start": s, "seed": seed}
+            yield {"start": s, "seed": seed, "config": 0, "full": True}
+        r = env.rng("C14", seed, "cfg")
+        full_cfgs = set(r.sample(range(1, len(cfgs)), 8)) if tier == "thorough" else set()
+        i = 0
+        for c in range(1, len(cfgs)):
+            for s in range(1440):
+                if tier == "quick" and (s + c) % 3:
+                    continue
+                if i % nshards == shard:
+                    yield {"start": s, "seed": seed, "config": c, "full": c in full_cfgs}
+                i += 1
 
     def run_case(self, case, acc, ctx):
+        zone, now = self.cfgs[case["config"]]
+        if now is None:
+            clock.set_zone("UTC")
+            self._run(case, acc, zone, now)
+        else:
+            clock.set_zone(zone)
+            with clock.virtual_time(now):
+                self._run(case, acc, zone, now)
+            acc.count("pairs_under_virtual_zone_and_date", 0)
+
+    def _run(self, case, acc, zone, now):
         s = case["start"]
         ss = hhmm(s)
         calc = self.tools.calc_duration
         ends = [hhmm(e) for e in range(1440)]
-        for e in range(1440):
+        if case["full"]:
+            which = range(1440)
+        else:
+            r0 = env.rng("C14e", case["seed"], s, case["config"])
+            which = sorted({s, (s + 1) % 1440, (s - 1) % 1440, (s + 60) % 1440, (s - 60) % 1440, (s + 120) % 1440, (s - 120) % 1440, 0, 1439}
+                           | {r0.randrange(1440) for _ in range(27)})
+        tagz = "" if now is None else f" [{zone} at {now}]"
+        for e in which:
             try:
                 r = calc(ss, ends[e])
             except Exception as exc:
-                acc.violation("raised", f"calc_duration({ss},{ends[e]}) raised {type(exc).__name__}", {"start": ss, "end": ends[e]})
+                acc.violation("raised", f"calc_duration({ss},{ends[e]}) raised {type(exc).__name__}{tagz}", {"start": ss, "end": ends[e], "zone": zone, "now": now})
                 continue
             if r != want(s, e):
-                acc.violation("wrong-duration", f"calc_duration({ss},{ends[e]}) = {r!r}, want {want(s, e)}",
-                              {"start": ss, "end": ends[e], "got": r, "want": want(s, e)})
-        acc.ev(1440)
-        acc.distinct(1440)
+                acc.violation("wrong-duration" + ("" if now is None else ":zone-or-date-dependent"), f"calc_duration({ss},{ends[e]}) = {r!r}, want {want(s, e)}{tagz}",
+                              {"start": ss, "end": ends[e], "got": r, "want": want(s, e), "zone": zone, "now": now})
+        acc.ev(len(which))
+        acc.distinct(len(which))
+        if now is not None:
+            acc.count("pairs_under_virtual_zone_and_date", len(which))
         self.rec.drain()  # same judgement as above; the recorder matters for in-situ use
         r = env.rng("C14", case["seed"], s)
         for e in [s, (s + 1) % 1440, (s - 1) % 1440] + [r.randrange(1440) for _ in range(5)]:
@@ -84,8 +134,8 @@ class C14(Prop):
                 acc.violation("wrong-duration-in-schedule", f"SwitcherSchedule({ss},{hhmm(e)}).duration = {sch.duration!r}",
                               {"start": ss, "end": hhmm(e), "got": sch.duration, "want": want(s, e)})
         self.rec.drain()
-        if s % 240 == 7:
-            acc.sample({"start": ss, "end": hhmm((s + 1439) % 1440), "observed": calc(ss, hhmm((s + 1439) % 1440))})
+        if s % 240 == 7 and (now is None or case["config"] % 9 == 1):
+            acc.sample({"zone": zone, "virtual_now": now, "start": ss, "end": hhmm((s + 1439) % 1440), "observed": calc(ss, hhmm((s + 1439) % 1440))})
 
     def finish(self, acc, ctx):
         acc.count("contract_evaluations", self.rec.evaluations)
